@@ -279,7 +279,7 @@ class PrinterVariant(Variant):
             binders = []
             for i in range(n):
                 q = S.qv(f, S.K(i))
-                name = self.child_tok(q) if not self.dag else atom(("qname", S.pl_str(q)))
+                name = atom(("qname", S.pl_str(q)))       # a binder is a name, not a term
                 binders += ["(", name, atom(("sort", S.pl_ty(q))), ")"]
             return app([atom("forall" if K == S.FORALL else "exists")], ["("] + binders + [")"] + kids)
         if K == S.ARRAY_VALUE:
